@@ -188,3 +188,54 @@ func RulePolicy(sc *RuleScenario) RuleOutcome {
 	sort.Strings(out.Hits)
 	return out
 }
+
+// RuleFileSpec says how one file of a scenario is put on the simulated disk.
+type RuleFileSpec struct {
+	Path   string      `json:"path"`
+	Kind   string      `json:"kind"` // valid | unreadable | torn-boundary | torn-inside | empty | dsl-violation | bad-import
+	Fault  string      `json:"fault,omitempty"`
+	Groups []RuleGroup `json:"groups"`
+	Keep   int         `json:"keep,omitempty"` // torn-boundary: groups surviving
+}
+
+// RuleRun is one C18 run: the scenario the model judges plus how it is realised.
+type RuleRun struct {
+	Scenario RuleScenario   `json:"scenario"`
+	Specs    []RuleFileSpec `json:"specs"`
+	RulesArg string         `json:"rules_arg"` // the literal parameter value (patterns with their spacing)
+	Builds   int            `json:"builds"`    // constructions in a row (the disk is re-read each time)
+}
+
+// ClassOf maps a file kind to the failure class the load policy sees.
+func ClassOf(sp *RuleFileSpec) string {
+	switch sp.Kind {
+	case "valid":
+		return ClassOK
+	case "torn-boundary":
+		if sp.Keep == 0 {
+			return ClassDSL // only the header survives: "imported and not used" does not compile
+		}
+		return ClassOK
+	case "unreadable":
+		return ClassUnreadable
+	case "bad-import":
+		return ClassImport
+	}
+	return ClassDSL
+}
+
+// Rebuild derives Scenario.Files from Specs (after generation or shrinking).
+func (r *RuleRun) Rebuild() {
+	r.Scenario.Files = nil
+	for i := range r.Specs {
+		sp := &r.Specs[i]
+		mf := RuleFile{Path: sp.Path, Class: ClassOf(sp)}
+		switch sp.Kind {
+		case "valid":
+			mf.Groups = sp.Groups
+		case "torn-boundary":
+			mf.Groups = sp.Groups[:sp.Keep]
+		}
+		r.Scenario.Files = append(r.Scenario.Files, mf)
+	}
+}
